@@ -22,6 +22,7 @@ import (
 	"time"
 
 	"github.com/scigolib/hdf5/internal/verif/vkit"
+	"github.com/scigolib/hdf5/internal/verif/vos"
 )
 
 // C07 — no input file can crash, hang or exhaust the reader.
@@ -66,9 +67,13 @@ func vfMutants(b []byte, thorough bool, focus [][2]int) []vfMutant {
 	interesting := make([]bool, n)
 	// bytes within a window of non-zero content are interesting; long zero runs (unused heap
 	// space) are skipped
+	win := 8
+	if focus != nil {
+		win = 16 // under an exact read mask the enumeration can afford wider zero margins
+	}
 	for i := 0; i < n; i++ {
 		if b[i] != 0 {
-			lo, hi := i-8, i+8
+			lo, hi := i-win, i+win
 			if lo < 0 {
 				lo = 0
 			}
@@ -106,17 +111,19 @@ func vfMutants(b []byte, thorough bool, focus [][2]int) []vfMutant {
 			}
 		}
 		if o+2 <= n {
-			for _, v := range []uint64{0xFFFF, 0xFFFE, 0x8000, 0x7FFF, 0x0100} {
+			// (2 and 3: lengths just above what a parser checked for before indexing)
+			for _, v := range []uint64{0xFFFF, 0xFFFE, 0x8000, 0x7FFF, 0x0100, 0x0002, 0x0003} {
 				out = append(out, vfMutant{o, 2, v})
 			}
 		}
 		if o+4 <= n {
-			for _, v := range []uint64{0xFFFFFFFF, 0xFFFFFFFE, 0x80000000, 0x7FFFFFFF, 0x00010000, fs, fs - 1} {
+			for _, v := range []uint64{0xFFFFFFFF, 0xFFFFFFFE, 0xFFFFFFF8, 0xFFFFFFF0, 0x80000000, 0x7FFFFFFF, 0x00010000, fs, fs - 1} {
 				out = append(out, vfMutant{o, 4, v & 0xFFFFFFFF})
 			}
 		}
 		if o+8 <= n {
-			vals := []uint64{0xFFFFFFFFFFFFFFFF, 0xFFFFFFFFFFFFFFFE, 1 << 63, 1<<63 - 1, 1 << 32, 1<<32 - 1, 1 << 31, fs, fs + 1, fs - 1, 1 << 40}
+			// (-8 and -16: sizes that cancel a fixed header length when added to a cursor)
+			vals := []uint64{0xFFFFFFFFFFFFFFFF, 0xFFFFFFFFFFFFFFFE, 0xFFFFFFFFFFFFFFF8, 0xFFFFFFFFFFFFFFF0, 1 << 63, 1<<63 - 1, 1 << 32, 1<<32 - 1, 1 << 31, fs, fs + 1, fs - 1, 1 << 40}
 			sel := addrs
 			if len(addrs) > 48 && !thorough {
 				// many structures (deep synthetic chain): the first and last 8 and the 8 nearest
@@ -389,28 +396,111 @@ func TestVerif_C07(t *testing.T) {
 	defer r.Finish()
 	dir := vkit.Scratch(t)
 	bases := vfLibBaseFiles(t, dir)
+	// is the os->vos redirection active in this build? With it the harness records which bytes
+	// of a base file the complete read traversal reads; deviations are then enumerated over
+	// exactly those bytes (a deviation in a byte the reader never reads cannot change what it
+	// does: the reader's execution is a function of the bytes it reads).
+	vosActive := false
+	{
+		p := filepath.Join(dir, "probe.h5")
+		os.WriteFile(p, bases[0].bytes, 0o644)
+		pl := &vos.Plan{Trace: true}
+		vos.SetPlan(p, pl)
+		vfC07Drive(p)
+		vosActive = len(pl.Reads) > 0
+		vos.SetPlan(p, nil)
+		os.Remove(p)
+	}
+	r.Set("read_trace_seam_active", vosActive)
 	nCorpus, maxSize := 6, int64(8192)
 	if r.Thorough() {
 		nCorpus, maxSize = 20, 16384
 	}
+	if vosActive {
+		// with exact read masks the cost of a base is the number of bytes read, not its size
+		nCorpus, maxSize = 10, 65536
+		if r.Thorough() {
+			nCorpus = 40
+		}
+	}
 	{
 		covered := map[string]bool{}
-		small, _ := vfCorpusCover(vfCorpusScan(512, maxSize), nCorpus, covered)
-		for i := range small {
-			small[i].focus = nil // small files are mutated as a whole
+		if vosActive {
+			// greedy feature cover, one file at a time; a file whose traversal reads more than the
+			// byte limit (mostly raw data) is passed over: its cost is the number of bytes read
+			limit := 6 << 10
+			if r.Thorough() {
+				limit = 32 << 10
+			}
+			cands := vfCorpusScan(512, maxSize)
+			skipped, nFocused, nFocusMax := 0, 0, 3
+			if r.Thorough() {
+				nFocusMax = 12
+			}
+			for n := 0; n < nCorpus && len(cands) > 0; {
+				trial := map[string]bool{}
+				for k := range covered {
+					trial[k] = true
+				}
+				one, chosen := vfCorpusCover(cands, 1, trial)
+				if len(one) == 0 {
+					break
+				}
+				// remove the chosen candidate from the pool either way
+				var rest []vfCorpusCand
+				for _, c := range cands {
+					if c.fn != chosen[0].fn {
+						rest = append(rest, c)
+					}
+				}
+				cands = rest
+				p := filepath.Join(dir, "cost.h5")
+				os.WriteFile(p, one[0].bytes, 0o644)
+				pl := &vos.Plan{Trace: true}
+				vos.SetPlan(p, pl)
+				vfC07Drive(p)
+				vos.SetPlan(p, nil)
+				os.Remove(p)
+				cost := 0
+				for _, rg := range vfMergeRanges(pl.Reads, len(one[0].bytes)) {
+					cost += rg[1] - rg[0]
+				}
+				if cost > limit {
+					// too many bytes read (mostly raw data): keep the file only for the headers of
+					// the objects that carry the new features (256-byte windows, at most 3 objects),
+					// at most nFocus such files
+					if nFocused >= nFocusMax || len(one[0].focus) == 0 {
+						skipped++
+						continue
+					}
+					nFocused++
+					one[0].name = strings.Replace(one[0].name, "corpus:", "corpus-focus:", 1)
+				} else {
+					one[0].focus = nil
+				}
+				bases = append(bases, one[0])
+				covered = trial
+				n++
+			}
+			r.Set("corpus_candidates_passed_over_for_reading_too_many_bytes", skipped)
+		} else {
+			small, _ := vfCorpusCover(vfCorpusScan(512, maxSize), nCorpus, covered)
+			for i := range small {
+				small[i].focus = nil // small files are mutated as a whole
+			}
+			bases = append(bases, small...)
+			// larger reference files (up to 64 KiB) that carry features none of the small ones has
+			// (e.g. compact layout): only the object headers carrying the new features are mutated
+			nFocus := 3
+			if r.Thorough() {
+				nFocus = 12
+			}
+			focused, _ := vfCorpusCover(vfCorpusScan(maxSize+1, 65536), nFocus, covered)
+			for i := range focused {
+				focused[i].name = strings.Replace(focused[i].name, "corpus:", "corpus-focus:", 1)
+			}
+			bases = append(bases, focused...)
 		}
-		bases = append(bases, small...)
-		// larger reference files (up to 64 KiB) that carry features none of the small ones has
-		// (e.g. compact layout): only the object headers carrying the new features are mutated
-		nFocus := 3
-		if r.Thorough() {
-			nFocus = 12
-		}
-		focused, _ := vfCorpusCover(vfCorpusScan(maxSize+1, 65536), nFocus, covered)
-		for i := range focused {
-			focused[i].name = strings.Replace(focused[i].name, "corpus:", "corpus-focus:", 1)
-		}
-		bases = append(bases, focused...)
 		var cov []string
 		for k := range covered {
 			cov = append(cov, k)
@@ -448,6 +538,25 @@ func TestVerif_C07(t *testing.T) {
 				}
 			}
 			bases = append(bases, vfBaseFile{"synth-sb0-cached-stab-chain-30", img, tr, focus})
+		}
+	}
+	if vosActive {
+		for i := range bases {
+			p := filepath.Join(dir, "trace.h5")
+			os.WriteFile(p, bases[i].bytes, 0o644)
+			pl := &vos.Plan{Trace: true}
+			vos.SetPlan(p, pl)
+			vfC07Drive(p)
+			vos.SetPlan(p, nil)
+			os.Remove(p)
+			read := vfMergeRanges(pl.Reads, len(bases[i].bytes))
+			if bases[i].focus != nil {
+				read = vfIntersectRanges(read, bases[i].focus)
+			}
+			bases[i].focus = read
+			if read == nil {
+				bases[i].focus = [][2]int{}
+			}
 		}
 	}
 	// allocation budget: far above anything an intact read needs, far below a field-sized allocation
@@ -490,7 +599,7 @@ func TestVerif_C07(t *testing.T) {
 	r.Set("cpu_limit_ms_per_mutant", cpuLimitMs)
 	r.Set("intact_max_alloc_bytes", maxIntact)
 	r.Set("alloc_budget_bytes", budget)
-	r.Rule("base files: 6 library-written files (one per feature), small reference-library files and a synthetic chain of 30 nested old-style groups with cached symbol-table entries (for which, in the quick tier, the substituted structure addresses are the first 8, the last 8 and the 8 nearest to the offset); mutants (one deviation each): every byte with non-zero content nearby set to each of {00,01,7F,80,FF}, and every offset read as a little-endian field of width 2/4/8 set to each boundary value (max, max-1, sign bit, 2^31, 2^32(-1), file size and file size +-1, 2^40) and, for width 8, the address of every signed structure in the file (self-reference, cycles); each mutant is opened and every read of the API is run (Walk, Info, Read, ReadStrings, ReadCompound, Attributes+ReadValue, ReadSlice of the first element, full chunk iteration) in a worker subprocess under an address-space limit; verdict: terminates, no panic, no fatal error, allocation below the budget, CPU time of the mutant below the work bound; every mutant is distinct")
+	r.Rule("base files: 6 library-written files (one per feature), small reference-library files and a synthetic chain of 30 nested old-style groups with cached symbol-table entries (for which, in the quick tier, the substituted structure addresses are the first 8, the last 8 and the 8 nearest to the offset); mutants (one deviation each): every byte with non-zero content nearby set to each of {00,01,7F,80,FF}, and every offset read as a little-endian field of width 2/4/8 set to each boundary value (max, max-1, -8, -16, sign bit, 2^31, 2^32(-1), file size and file size +-1, 2^40) and, for width 8, the address of every signed structure in the file (self-reference, cycles); each mutant is opened and every read of the API is run (Walk, Info, Read, ReadStrings, ReadCompound, Attributes+ReadValue, ReadSlice of the first element, full chunk iteration) in a worker subprocess under an address-space limit; verdict: terminates, no panic, no fatal error, allocation below the budget, CPU time of the mutant below the work bound; every mutant is distinct")
 	r.Assume("a hang is declared only after a mutant made no progress for 20 s and again for 60 s when re-run alone (an intact traversal takes milliseconds)")
 
 	type fileJob struct {
@@ -901,4 +1010,49 @@ func vfC07BaseClass(b vfBaseFile) string {
 		}
 	}
 	return c
+}
+
+// vfMergeRanges turns traced reads into sorted disjoint [lo,hi) ranges inside [0,size).
+func vfMergeRanges(reads [][2]int64, size int) [][2]int {
+	mask := make([]bool, size)
+	for _, rd := range reads {
+		for j := rd[0]; j < rd[1] && j < int64(size); j++ {
+			if j >= 0 {
+				mask[j] = true
+			}
+		}
+	}
+	var out [][2]int
+	for i := 0; i < size; {
+		if !mask[i] {
+			i++
+			continue
+		}
+		j := i
+		for j < size && mask[j] {
+			j++
+		}
+		out = append(out, [2]int{i, j})
+		i = j
+	}
+	return out
+}
+
+func vfIntersectRanges(a, b [][2]int) [][2]int {
+	var out [][2]int
+	for _, x := range a {
+		for _, y := range b {
+			lo, hi := x[0], x[1]
+			if y[0] > lo {
+				lo = y[0]
+			}
+			if y[1] < hi {
+				hi = y[1]
+			}
+			if lo < hi {
+				out = append(out, [2]int{lo, hi})
+			}
+		}
+	}
+	return out
 }
